@@ -353,7 +353,10 @@ func (w *world) renew(i int, c renewCase, variant int) renewObs {
 
 type issueObs struct {
 	Certs []certObs `json:"certs"`
-	Err   string    `json:"err,omitempty"`
+	// certificates of the same client CA that exist besides the ones just issued (version-1 subjects as the migration tool signs them: the
+	// token is whatever 44 characters the old installation used, colons included; several share an id and a prefix of the token)
+	Elders []certObs `json:"elders"`
+	Err    string    `json:"err,omitempty"`
 }
 
 func (w *world) issue(i int, c renewCase, variant int) issueObs {
@@ -392,6 +395,16 @@ func (w *world) issue(i int, c renewCase, variant int) issueObs {
 			return o
 		}
 		o.Certs = append(o.Certs, w.describe(resp.GetCertDer(), subj, tok, keys, priv.Public().(ed25519.PublicKey)))
+	}
+	id := uint64(1000 + r.Intn(1000))
+	for _, t := range []string{"c2hhcmVk", "c2hhcmVk:QUFB", "c2hhcmVk:QkJC", "c2hhcmVk:QUFB:x", "plain-token"} {
+		pub, _, _ := ed25519.GenerateKey(rand.Reader)
+		der, err := pki.GenerateCertificate(zap.NewNop(), w.clientCA, pki.IdentityRequest{Subject: pki.MakeSubjectV1(id, t), PublicKey: pub})
+		if err != nil {
+			o.Err = "GenerateCertificate: " + err.Error()
+			return o
+		}
+		o.Elders = append(o.Elders, w.describe(der, subj, tok, keys, nil))
 	}
 	return o
 }
